@@ -6,6 +6,7 @@ Open Scope list_scope.
 
 Record tparam := mkTP {
   tp_var : str;              (* <x> of <x>RawPtr *)
+  tp_decl : str;             (* T of `var <x>RawPtr *T` with the import alias qualifier removed *)
   tp_sources : list str;     (* request-reading expressions *)
   tp_wires : list str;       (* string literals handed to them *)
   tp_conv : str;             (* strconv function inside `if is<X>Exists` *)
@@ -67,8 +68,11 @@ Definition expected_conv (t : str) : str * str :=
   else if str_eqb u (s "float64") then (s "ParseFloat", s "64")
   else (s "?", s "?").
 
+(* typing discipline of the generated handler: <x>RawPtr : *T where T is the parameter's declared
+   (non-pointer) type; the argument is *<x>RawPtr : T for a by-value parameter and <x>RawPtr : *T
+   for a pointer parameter (see arg_ok) - so every argument has the method's parameter type *)
 Definition tparam_ok (e : engine) (p : param) (t : tparam) : bool :=
-  str_eqb (tp_var t) (pa_name p) &&
+  str_eqb (tp_var t) (pa_name p) && str_eqb (tp_decl t) (declared_type p) &&
   if loc_eqb (pa_loc p) LBody then
     tp_is_body t && str_eqb (tp_validator t) (reduced_validator p)
   else
